@@ -207,6 +207,24 @@ def main(tier, replay, t0):
         os.remove(rp)
     runs.append(("real|options|delay0", onames, jp, rp, core.env(PATH=real_dir + ":/usr/bin:/bin")))
 
+    # many calls in ONE process while the formatter is missing (anything a call takes and only
+    # gives back on success would run out)
+    anames = []
+    jp = os.path.join(work, "absent_many.jobs.jsonl")
+    rp = os.path.join(work, "absent_many.res.jsonl")
+    with open(jp, "w") as f:
+        for k in range(24):
+            n0 = ["minimal.wgsl", "pbr.wgsl", "unicode.wgsl"][k % 3]
+            nid = "%s#again%d" % (n0, k)
+            ref[nid] = ref[n0]
+            shaders[nid] = shaders[n0]
+            anames.append(nid)
+            f.write(json.dumps({"id": nid, "source": shaders[n0], "opt": {"fmt": True, "en": True},
+                                "canon": True}) + "\n")
+    if os.path.exists(rp):
+        os.remove(rp)
+    runs.append(("absent|many_calls|delay0", anames, jp, rp,
+                 core.env(PATH=os.path.join(core.VERIF, "stubs", "absent"))))
     # concurrent calls whose texts are all above the pipe buffer (anything the calls share -
     # a scratch file, a static buffer - would hand one caller another caller's module)
     tnames = ["big400.wgsl", "big1200.wgsl"] + ["bigT%d.wgsl" % k for k in (500, 620, 740, 860)]
@@ -319,7 +337,7 @@ def main(tier, replay, t0):
         if len(samples) < 8 and cell.split("|")[0] in ("kill_before_read", "empty_ok", "absent",
                                                        "read_some_then_exit1"):
             samples.append({"cell": cell, "outcome": outcome})
-    expected_cells = len(FAULTS) * 2 * len(delays) + len(delays) + 1 + 3
+    expected_cells = len(FAULTS) * 2 * len(delays) + len(delays) + 1 + 4
     if len(cells) != expected_cells:
         inconclusive.append("only %d of %d cells ran" % (len(cells), expected_cells))
     core.finish("C19", tier, "fault_enumeration", t0, viol, {
